@@ -26,7 +26,7 @@ type sfNode struct {
 	mtime  int64
 	uid    uint32
 	gid    uint32
-	shape  byte           // what its FileInfo looks like: 0 with Uid/Gid, 1 a plain os.FileInfo, 2 with Uid/Gid and extended data
+	shape  byte           // what its FileInfo looks like: 0 with Uid/Gid, 1 a plain os.FileInfo, 2 with Uid/Gid and extended data, 3 with Uid/Gid and a Sys() of another owner
 	ext    []StatExtended // for shape 2
 }
 
@@ -355,6 +355,14 @@ type sfExtInfo struct{ *sfInfo }
 
 func (e sfExtInfo) Extended() []StatExtended { return e.nd.ext }
 
+// sfSysInfo has Uid/Gid methods *and* a Sys() that is a *syscall.Stat_t naming another owner (a handler that wraps
+// real os.FileInfo values to present virtual users): the documented rule is that the methods win.
+type sfSysInfo struct{ *sfInfo }
+
+func (e sfSysInfo) Sys() any {
+	return &syscall.Stat_t{Uid: e.nd.uid + 7777, Gid: e.nd.gid + 7777, Nlink: 3}
+}
+
 func (fs *sfs) info(p string, nd *sfNode) os.FileInfo {
 	i := &sfInfo{name: path.Base(p), nd: nd, size: int64(len(nd.data))}
 	switch nd.shape {
@@ -362,6 +370,8 @@ func (fs *sfs) info(p string, nd *sfNode) os.FileInfo {
 		return sfPlainInfo{i}
 	case 2:
 		return sfExtInfo{i}
+	case 3:
+		return sfSysInfo{i}
 	}
 	return i
 }
